@@ -148,8 +148,33 @@ theorem C02_upgraded_loop_exactly_once (p : UpPolicy) (fuel : Nat) (tail : Bytes
 theorem C02_upgraded_records (tail : Bytes) (rest : List Bytes) :
     (ListenWorker.upgradedPhase linePolicy tail rest).1.flatten = throughLastNl (tail ++ rest.flatten) ∧
     (ListenWorker.upgradedPhase linePolicy tail rest).2 = afterLastNl (tail ++ rest.flatten) := by
-  obtain ⟨h1, h2, _⟩ := lineLoop_spec' (rest.length + 2) tail rest (by omega)
-  exact ⟨h1, h2⟩
+  unfold ListenWorker.upgradedPhase
+  simp only [workerUnread_upgraded, handOverAtOnce_spec]
+  by_cases h : (!tail.isEmpty || !rest.isEmpty) = true
+  · simp only [h, if_true]
+    obtain ⟨h1, h2, _⟩ := lineLoop_spec' (rest.length + 2) tail rest (by omega)
+    exact ⟨h1, h2⟩
+  · have ht : tail = [] := by
+      cases tail with
+      | nil => rfl
+      | cons a t => simp at h
+    have hr : rest = [] := by
+      cases rest with
+      | nil => rfl
+      | cons a t => simp at h
+    subst ht; subst hr
+    simp [throughLastNl, afterLastNl]
+
+/-- **C02 upgraded mode, the worker's bookkeeping as written in server.rs** (definitions regenerated from the
+    source on every run): the connection closure recognises the switch to upgraded mode exactly once, keeps the
+    bytes a `handle()` call returns whenever the connection is upgraded (not only at the switch), and hands
+    bytes buffered behind the upgrading request over at once, without waiting for more input. -/
+theorem C02_worker_bookkeeping :
+    (∀ sw, Extracted.keepUnread sw true = true) ∧
+    (Extracted.switchedNow false true = true ∧ Extracted.switchedNow true true = false ∧
+      Extracted.switchedNow false false = false) ∧
+    (∀ e, Extracted.handOverAtOnce true e = !e) :=
+  ⟨keepUnread_upgraded, switchedNow_spec, handOverAtOnce_spec⟩
 
 /-- … hence two segmentations of the same stream cannot be told apart by such a handler -/
 theorem C02_upgraded_records_segmentation (tail₁ tail₂ : Bytes) (rest₁ rest₂ : List Bytes)
